@@ -1,6 +1,6 @@
 """C20 - the configured evolvent density is honoured.
 
-Real Solve() runs with SolverParameters.evolventDensity = m in 2..12, N in 2..5 (N*m <= 50).  For every
+Real Solve() runs with SolverParameters.evolventDensity = m in 2..12, N in 2..5 (N*m <= 60).  For every
 global-phase trial point y (from the Calculate log) and every coordinate i:
   on-grid            t = (y_i - lower_i)/(upper_i - lower_i) * 2^m - 1/2 is within 1e-6 of an integer j, 0 <= j < 2^m
   on-grid-exact      dyadic boxes ([0,1]^N, [-1,1]^N): with fractions.Fraction, t is exactly an integer in [0, 2^m)
@@ -21,7 +21,7 @@ for _p in (os.path.dirname(_D), _D):
 import o1_common as oc
 
 PROP = "C20"
-RULE = ("random objective, N=2..5, density m uniformly in 2..12 subject to N*m<=50, box: 50% dyadic ([0,1]^N or [-1,1]^N, "
+RULE = ("random objective, N=2..5, density m uniformly in 2..12 subject to N*m<=60, box: 50% dyadic ([0,1]^N or [-1,1]^N, "
         "tested exactly with Fractions) else streams.gen_box (incl. tiny/huge/non-symmetric, tested to 1e-6 of a cell); "
         "itersLimit in {5..200}; a second density m2 != m is run on the same problem. Distinct by parameter set; non-trivial "
         "if the run has >= 5 trials and visits >= 3 distinct cells.")
@@ -105,7 +105,7 @@ def check_case(case):
 
 def gen(r):
     n = r.choice((2, 2, 3, 4, 5))
-    ms = [m for m in range(2, 13) if n * m <= 50]
+    ms = [m for m in range(2, 13) if n * m <= 60]      # N*m > 52 exhausts the mantissa of x: the grid must still be the configured one
     m = r.choice(ms)
     m2 = r.choice([x for x in ms if x != m])
     box = None
